@@ -182,4 +182,16 @@ def run_case(c, stats):
         call(A.concatenate, B)
         call(A.kleene_star)
         call(B.concatenate, A)
+    if c["a"].get("edits"):
+        # the receiver is edited through its public mutators and the operations are asked again (same object)
+        gfa.apply_edits(A, c["a"])
+        stats.cls("edited")
+        call(A.get_complement)
+        call(A.reverse)
+        call(A.get_intersection, B)
+        call(B.get_difference, A)
+        if c["token"]:
+            call(A.union, B)
+            call(A.kleene_star)
+            call(B.concatenate, A)
     return nt
